@@ -111,6 +111,10 @@ def gen_spans(rng, sorted_only, min_ms_len=False):
             s, e = ts[2 * i], ts[2 * i + 1]
             if i + 1 < n and rng.random() < 0.35:
                 ts[2 * i + 2] = e          # touching cues
+            if not min_ms_len and rng.random() < 0.2:
+                e = s + rng.choice([0, 1, 400, 999, 30000, 39999])     # shorter than a millisecond / a frame
+                if (i + 1 < n and exact(ts[2 * i + 2]) < exact(e)) or exact(e) > 86399999999:
+                    e = s
             spans.append((s, e))
         if min_ms_len:
             spans = [(s, e) for (s, e) in spans if exact(s) // 1000 < exact(e) // 1000]
@@ -125,8 +129,8 @@ def gen_spans(rng, sorted_only, min_ms_len=False):
     while len(spans) < n:
         a, b = gen_time(rng), gen_time(rng)
         s, e = (a, b) if exact(a) <= exact(b) else (b, a)
-        if rng.random() < 0.2:
-            e = s + rng.choice([0, 1, 999, 1000, 900])
+        if rng.random() < 0.3:      # captions shorter than one millisecond / one frame (start <= end is all the domain asks)
+            e = s + rng.choice([0, 0, 1, 999, 1000, 900, 30000, 39999, 40000, 0.5])
             if exact(e) > 86399999999:
                 e = s
         run = rng.choice([1, 1, 1, 2, 3, 4])
